@@ -86,6 +86,12 @@ def run_history(res, ctx, root, rng, hidx, max_steps, con):
         f.write_text("")
     elif start == "code":
         f.write_text("K1 code\nK2 code\n")
+        if rng.random() < 0.4:
+            # information the project states about the file elsewhere (an aggregate table): the file itself has none, so there
+            # is nothing --skip-existing could mean to skip
+            (d / "REUSE.toml").write_text('version = 1\n\n[[annotations]]\npath = "**"\nprecedence = "aggregate"\n'
+                                          'SPDX-FileCopyrightText = "2010 Table Holder"\nSPDX-License-Identifier = "BSD-2-Clause"\n')
+            res.cell("start:code-covered-by-aggregate-table")
     elif start == "code-multibyte":
         # valid UTF-8 whose multi-byte characters lie across the offsets where readers of fixed-size chunks cut (512, 1024, 4096, 8192)
         body = bytearray(b"".join(b"K%04d = 'filler filler filler filler'\n" % i for i in range(260)))
@@ -130,6 +136,10 @@ def run_history(res, ctx, root, rng, hidx, max_steps, con):
     prev_c = set(prev[rel]["cop"]) if prev and rel in prev else set()
     prev_l = set(prev[rel]["lic"]) if prev and rel in prev else set()
     prev_contrib = annot.read_contributors(f) or set()
+    # what a REUSE.toml says is not the header's; the history is about what the header declares
+    table_c, table_l = ({"2010 Table Holder"}, {"BSD-2-Clause"}) if (d / "REUSE.toml").exists() else (set(), set())
+    prev_c -= table_c
+    prev_l -= table_l
     years_by_holder = {}
     for h, yss in holder_lines(prev_c).items():
         for ys in yss:
@@ -226,6 +236,11 @@ def run_history(res, ctx, root, rng, hidx, max_steps, con):
                               args=args + opts)
                 return
             res.cell("step:skipped" if "Skipped" in r.stdout else "step:failed")
+            blob = before_bytes[0] + (before_bytes[1] or b"")
+            if "Skipped" in r.stdout and not any(m in blob for m in (b"SPDX-", b"opyright", "©".encode())):
+                res.violation("skip-existing-skips-file-without-information-of-its-own", f"step {s}: --skip-existing skipped a file that states "
+                              "nothing itself (what REUSE.toml says about it is not in the file)", args=args + opts)
+                return
             if after_bytes[1] is not None and before_bytes[1] is None:
                 return  # tree state is no longer the model's (stray .license): stop this history
             continue
@@ -297,7 +312,7 @@ def run_history(res, ctx, root, rng, hidx, max_steps, con):
                 res.violation("contributor-dropped", f"step {s}: contributors {sorted((set(contribs) | prev_contrib) - gcon)} no longer declared under "
                               f"template {template}; read {sorted(gcon)}", args=args + opts, history=sig)
                 return
-        prev_c, prev_l, prev_contrib = set(got_c), set(got_l), set(gcon)
+        prev_c, prev_l, prev_contrib = set(got_c) - table_c, set(got_l) - table_l, set(gcon)
         if hides:
             # the new .license has replaced the file's own header as the carrier (listed finding): from here on the model
             # knows only what is visible there
